@@ -139,7 +139,8 @@ def nativeSub (a b : RVal) (pos : Pos) : EvalM RVal := do
   let cb ← cellOf b
   match ca with
   | some (.list xs) =>
-    -- args.getAsList("b")
+    -- `args.getAsList("b")` is evaluated inside the loop over `a`: never for an empty list
+    if xs.isEmpty then return ← newList []
     let ys ← (match b, cb with
       | _, some (.list ys) => pure ys
       | _, some (.set ys) => collAsList (.set ys)
